@@ -25,7 +25,17 @@ structure Env where
   capIn : Nat := 0
   /-- `min_non_zero_cap(T::SIZE)` (`src/lib.rs` l.544) -/
   minCap : Nat := 4
+  /-- the largest element count that still has a valid layout (`isize::MAX / T::SIZE`): a growth to more than
+      that ends in "capacity overflow" (`checked_add` / `checked_mul` / `Layout::from_size_align`, `bump_vec.rs`
+      l.2665-2681 + l.2732-2760, `prepare_slice_allocation`); `none`: an idealised, unbounded address space -/
+  maxCap : Option Nat := none
   deriving Repr, Inhabited
+
+/-- does a capacity of `c` elements have a layout? -/
+def Env.fits (env : Env) (c : Nat) : Bool :=
+  match env.maxCap with
+  | none => true
+  | some m => decide (c ≤ m)
 
 /-- a reallocation to `newCap` slots: `allocator.grow` / `grow_prepared_allocation` keep the contents -/
 def growTo (v : Vec) (newCap : Nat) : Vec := { v with slots := v.slots ++ H (newCap - v.cap) }
@@ -34,10 +44,11 @@ def growTo (v : Vec) (newCap : Nat) : Vec := { v with slots := v.slots ++ H (new
     `none` = the request is refused (`FixedBumpVec`: `fixed_size_vector_is_full / _no_space`) -/
 def growAmortized (env : Env) (v : Vec) (additional : Nat) : Option Vec :=
   let required := v.len + additional
+  let newCap := max (max (v.cap * 2) required) env.minCap
   match env.kind with
   | .box | .fixed => none
-  | .bump => some (growTo v (max (max (v.cap * 2) required) env.minCap))
-  | .mut | .rev => if required ≤ env.capIn then some (growTo v env.capIn) else none
+  | .bump => if env.fits newCap then some (growTo v newCap) else none                     -- else: capacity overflow
+  | .mut | .rev => if env.fits newCap ∧ required ≤ env.capIn then some (growTo v env.capIn) else none
 
 /-- `generic_reserve(additional)` — `fixed_bump_vec.rs` l.1629, `bump_vec.rs` l.1909 -/
 def reserve (env : Env) (v : Vec) (additional : Nat) : Option Vec :=
@@ -180,8 +191,8 @@ def reserveExact (env : Env) (v : Vec) (additional : Nat) : Option Vec :=
   if additional > v.cap - v.len then
     match env.kind with
     | .box | .fixed => none
-    | .bump => some (growTo v (v.len + additional))
-    | .mut | .rev => if v.len + additional ≤ env.capIn then some (growTo v env.capIn) else none
+    | .bump => if env.fits (v.len + additional) then some (growTo v (v.len + additional)) else none
+    | .mut | .rev => if env.fits (v.len + additional) ∧ v.len + additional ≤ env.capIn then some (growTo v env.capIn) else none
   else some v
 
 /-- `BumpVec::shrink_to_fit` (l.2793-2814): if `cap > len` the allocator is asked to shrink the block to
